@@ -143,6 +143,22 @@ def run_property(prop, tier, jobs):
         per_fn.append({'function': r['fn'], 'source_sha256_16': r['sha'], 'paths': r['paths'], 'obligations': n,
                        'discharged': d, 'inlined_transparent': r['inlined'], 'callee_contracts_used': r['used_contracts'],
                        'time_s': round(r['time'], 2), 'tool_limit': r['tool_limit']})
+    # ---- code-independent lemma checked by Lean (C10: sorted-permutation uniqueness)
+    lemma_note = None
+    if prop == 'C10':
+        lf = os.path.join(VERIF, 'lemmas', 'SortedUnique.lean')
+        ok = os.path.join(VERIF, 'lemmas', 'SortedUnique.ok')
+        sha = hashlib.sha256(open(lf, 'rb').read()).hexdigest()
+        if not (os.path.exists(ok) and open(ok).read().strip() == sha) or tier == 'thorough':
+            subprocess.run([os.path.join(VERIF, 'tools', 'check_lemmas.sh')], capture_output=True, text=True)
+        good = os.path.exists(ok) and open(ok).read().strip() == sha
+        total += 1
+        if good:
+            discharged += 1
+            lemma_note = 'lemmas/SortedUnique.lean (ascending_perm_unique, chain_lt_of_le_ne) checked by lean 4 / Mathlib'
+        else:
+            print('checker error: Lean lemma lemmas/SortedUnique.lean does not check')
+            errors.append(('lemmas/SortedUnique.lean', 'lean failed'))
     # ---- bounded stand-in / cross-check on the real code (never counted as proved)
     from pyvc import realcheck
     rc = realcheck.run(prop, tier, seed)
@@ -219,6 +235,7 @@ def run_property(prop, tier, jobs):
                 _z3v(), '; cvc5 1.0.3 + z3 4.8.12 cross-check on SMT-LIB' if tier == 'thorough' else ''),
             'solver_time_s': round(solver_time, 2),
             'tool_limits': [{'function': f, 'reason': t} for f, t in tool_limits],
+            'lean_lemma': lemma_note,
             'callee_contracts_assumed_not_proved': sorted(pending_contracts),
             'undischarged': [{'obligation': ob['full'], 'path': ob['path'], 'result': ob['result']} for r, ob in failing][:50],
             'vacuity_covers_refuted': len(vacuous),
